@@ -34,7 +34,7 @@ LOOP2 = dict(
          'drec->zlib_initialized == HTP_COMPRESSION_LZMA ==> rc == 0',
          'g_c07_cb_failed == 0', 'C07_INV_DEAD(drec)'],
     dec='drec->stream.avail_in, g_c07_budget, drec->stream.avail_out')
-for nm, rmin, th in (('c07_decompress', 3, False), ('c07_decompress_restart1', 2, False)):
+for nm, rmin, th in (('c07_decompress', 3, False),):
     D2x = {'quick': dict(D2['quick'], C07_RESTART_MIN=rmin), 'thorough': D2['thorough']}
     UNITS.append(U(name=nm, props=['C07', 'C01'], kind='contract', src=['htp_decompressors.c'], enforce='htp_gzip_decompressor_decompress',
                    replace=['c07_sink'] + ZSTUBS + ['htp_gzip_decompressor_restart', 'memcpy/contract_c07_memcpy', 'htp_log/contract_c07_htp_log'],
@@ -45,3 +45,34 @@ for nm, rmin, th in (('c07_decompress', 3, False), ('c07_decompress_restart1', 2
                    defs=D2x, min_obl=200, timeout=(150, 600), objbits=12,
                    assumes=A2 + ['entry: drec->restart >= %d, i.e. at most %d re-entries through `goto restart` in this call' % (rmin, 3 - rmin)],
                    sub='one decompressor layer, any zlib/LZMA behaviour, restart counter >= %d on entry: every delivery is <= 8192 bytes of the own buffer, the untouched input, or the empty end marker; a refused delivery ends the call at once (non-OK, no further delivery, stream dead); dead stream + input => ERROR and no delivery; passthrough delivers the input once; all buffer arithmetic memory-safe; the inflate loop terminates' % rmin))
+
+# the two helpers that c07_decompress replaces by contracts, enforced on the real code
+UNITS.append(U(name='c07_restart', props=['C07', 'C01'], kind='contract', src=['htp_decompressors.c'], enforce='htp_gzip_decompressor_restart',
+               contract='contract_real_htp_gzip_decompressor_restart', replace=['inflateInit2_', 'htp_gzip_decompressor_probe'],
+               contracts_inc=['c07_decomp.h'], defs=D2, min_obl=30,
+               harness='void HARNESS(void) { htp_decompressor_gzip_t *z; const unsigned char *p; size_t n; size_t *c; htp_gzip_decompressor_restart(z, p, n, c); CANARY(); }',
+               assumes=['inflateInit2_ replaced by a frame contract (any result, cursors untouched); probe replaced by its contract (enforced by c07_probe)'],
+               sub='restart heuristics: returns 1 only while the restart counter is < 3 and then increments it (at most 3 restarts per decompressor, hence termination of the `goto restart` loop); never moves the zlib cursors; *consumed_back <= data_len; only switches gzip <-> raw deflate'))
+UNITS.append(U(name='c07_probe', props=['C07', 'C01'], kind='contract', src=['htp_decompressors.c'], enforce='htp_gzip_decompressor_probe',
+               contract='contract_real_htp_gzip_decompressor_probe', contracts_inc=['c07_decomp.h'], defs=D2, min_obl=10,
+               loops={'htp_decompressors.c': {'htp_gzip_decompressor_probe': {'count': 1, 0: dict(
+                   assigns='len', inv=['len >= 10', 'len <= data_len || len == 10'], dec='(len <= data_len ? data_len - len : 0)')}}},
+               harness='void HARNESS(void) { const unsigned char *p; size_t n; htp_gzip_decompressor_probe(p, n); CANARY(); }',
+               sub='gzip header probe: reads only inside the chunk, skip count <= chunk length, terminates'))
+
+# ---- unit 3: building the response decompressor chain ------------------------------------------------------------------------
+D3 = {'quick': {'C07_UNIT_CHAIN': 1, 'C07_MAXLAYERS': 2, 'C07_CECAP': 64, 'CHUNK_CAP': 4096}, 'thorough': {'C07_CECAP': 1024}}
+UNITS.append(U(name='c07_chain', props=['C07', 'C18', 'C01'], kind='bounded', src=['htp_transaction.c'], enforce='htp_tx_state_response_headers',
+               replace=['htp_table_get_c/contract_c07_htp_table_get_c', 'bstr_cmp_c_nocasenorzero/contract_c07_bstr_cmp_c_nocasenorzero',
+                        'bstr_util_cmp_mem/contract_c07_bstr_util_cmp_mem', 'bstr_util_mem_index_of_c_nocase/contract_c07_bstr_util_mem_index_of_c_nocase',
+                        'htp_connp_res_receiver_finalize_clear/contract_c07_htp_connp_res_receiver_finalize_clear', 'htp_hook_run_all/contract_c07_htp_hook_run_all',
+                        'htp_tx_res_destroy_decompressors/contract_c07_htp_tx_res_destroy_decompressors', 'get_token/contract_c07_get_token',
+                        'htp_gzip_decompressor_create/contract_c07_htp_gzip_decompressor_create', 'htp_log/contract_c07_htp_log'],
+               contracts_inc=['sm.h', 'c07_decomp.h'],
+               pre_instrument=['--unwindset', 'htp_tx_state_response_headers.0:4', '--unwinding-assertions'],
+               harness='void HARNESS(void) { htp_tx_t *t; htp_tx_state_response_headers(t); CANARY(); }',
+               defs=D3, min_obl=100, timeout=(150, 600), objbits=12,
+               bound='response_decompression_layer_limit in 1..2 (default 2): the chain loop is unwound 4 times and the unwinding assertion proves that this is enough for every header value; limit 0 (= unlimited) and limits > 2 are not covered',
+               assumes=['header lookup, string comparisons, tokenizer, hooks, receiver finalisation, old-chain destruction and the decompressor factory are replaced by frame stubs with arbitrary results (so every Content-Encoding value, token sequence and hook outcome is covered); the factory returns NULL or a fresh unlinked object and counts layers / LZMA layers',
+                        'the tokenizer stub returns a token length <= remaining input; the real get_token is not verified here'],
+               sub='chain construction: layers created <= response_decompression_layer_limit; LZMA layers from a coding list <= response_lzma_layer_limit; every created layer is linked from connp->out_decompressor with the response sink as callback, also after a failed creation (no leak, HTP_ERROR returned); the old chain is destroyed first'))
